@@ -57,6 +57,20 @@ atom("unreachable_after_continue", "for i in xs:\n    note(i)\n    continue\n   
 atom("unreachable_after_break", "for i in xs:\n    note(i)\n    break\n    note(-i)\nelse:\n    note('else')\n")
 atom("unreachable_if_both_return", "def g(c):\n    if c:\n        return note(1)\n    else:\n        return note(2)\n    note(3)\na = (g(p), g(q))\n", "a")
 atom("while_true_break", "i = 0\nwhile True:\n    i += 1\n    if i > 2:\n        break\nnote(i)\n", "i")
+# loops with a constant true test whose only way out sits in an except handler, a match case, a try-else / finally, a
+# with block or an inner loop's else (family added after the seeded change C01-breaks-out-of-skips-handlers)
+for _nm, _body in (
+    ("except", "    try:\n        i += 1\n        if i > 2:\n            raise ValueError(i)\n    except ValueError:\n        break\n"),
+    ("except_nested_if", "    try:\n        i += 1\n        int('x')\n    except ValueError:\n        if i > 2:\n            break\n"),
+    ("match_case", "    i += 1\n    match i:\n        case 3:\n            break\n        case _:\n            note(i)\n"),
+    ("try_else", "    try:\n        i += 1\n    except ValueError:\n        note('never')\n    else:\n        if i > 2:\n            break\n"),
+    ("finally", "    try:\n        i += 1\n    finally:\n        if i > 2:\n            break\n"),
+    ("with", "    i += 1\n    with open(FIXTURE) as fh:\n        if i > 2:\n            break\n"),
+    ("inner_for_else", "    i += 1\n    for w in xs:\n        if w > 5:\n            break\n    else:\n        if i > 2:\n            break\n"),
+    ("except_star", "    try:\n        i += 1\n        if i > 2:\n            raise ExceptionGroup('g', [ValueError(i)])\n    except* ValueError:\n        i = 10\n    if i >= 10:\n        break\n"),
+):
+    for _test in ("True", "1"):
+        atom("while_const_exit_in[%s,%s]" % (_nm, _test), "i = 0\ntotal = 0\nwhile %s:\n" % _test + _body + "    total += i\nnote(total)\na = (i, total)\n", "a", ["alone"])
 atom("while_p_return", "def g(c):\n    while c:\n        return note(1)\n    return note(2)\na = (g(p), g(q))\n", "a")
 atom("raise_missing_from", "try:\n    try:\n        note(int(t))\n    except ValueError:\n        raise KeyError('k')\nexcept KeyError:\n    note('caught')\n")
 atom("raise_missing_from_named", "try:\n    try:\n        note(int(t))\n    except ValueError as err:\n        raise KeyError('k')\nexcept KeyError as e2:\n    note(type(e2.__cause__).__name__)\n")
